@@ -453,7 +453,7 @@ func New(dataShards, parityShards int, opts ...Option) (Encoder, error) {
 			r.m[i] = make([]byte, dataShards)
 			r.m[i][i] = 1
 		}
-		for k, row := range r.o.customMatrix {
+		for k, row := range r.o.customMatrix[:parityShards] {
 			if len(row) < dataShards {
 				return nil, errors.New("coding matrix must contain at least dataShards columns")
 			}
